@@ -22,8 +22,8 @@ printers; composed there with `named_segment_text` / `writer_mappings_decode` of
 
 OPEN — carried by K/O only (no theorem): original positions are at token starts IN THE SOURCE TEXT (the AST positions are
 taken as given here; checked on the real output against the real input files — and violated when an astral character precedes
-the token on its line, known finding `e2e:original-column-counts-code-points`); the bodies of the operation printers and the
-resolver printer's plugins (see the OPEN block of `Props/C06Sites.lean`).
+the token on its line, known finding `e2e:original-column-counts-code-points`); the resolver printer's plugins (see the OPEN
+block of `Props/C06Sites.lean`; the bodies of the operation printers are modelled and proved in `Props/C06Bodies.lean`).
 -/
 namespace NitroVerif.SourceMap
 open NitroVerif.SourceMapSpec (b64Val vlqDecode decodeMappings Segment strictSegments strictGo)
